@@ -224,6 +224,16 @@ class SpecSys:
             self.vars[x] = dict(v, label_open=v["label_open"], formulas=[(d, ("A", f)) for d, f in v["formulas"]],
                                 optional=[(d, ("A", f)) for d, f in v["optional"]], last="ann")
             return True
+        if k == "ext":
+            ok = True
+            for cd in x[1]:
+                ok = ok and self.apply(("add", cd))
+            for pn, items in x[2]:
+                if pn in self.base_params:
+                    ok = False
+                elif ok:
+                    self.base_params[pn] = items
+            return ok
         if any(u["name"] not in self.base_params for u in x):
             return False
         for u in x:
@@ -403,7 +413,7 @@ def oracle(case: Case, impl_out: str):
             if not valid:
                 systems[tgt] = before
                 systems[tgt].judged = False
-            if op[2][0] == "par":                   # (a modifier that raises half-way has updated in place, too)
+            if op[2][0] == "par" or (op[2][0] == "ext" and op[2][1][2]):   # (a modifier that raises half-way has updated in place, too)
                 for j, s in enumerate(systems):     # reforms stacked on the target may share its tree
                     p = j
                     while systems[p].how == "R":
@@ -663,11 +673,26 @@ class Gen:
             self.entity_of[n] = cd["entity"]
         rank = {n: i for i, n in enumerate(names + NEWNAMES)}
 
+        # extensions loaded directly
+        dpool = []
+        for i in range(2):
+            xp = []
+            if r.random() < 0.7:
+                xp.append((f"y{i}" if r.random() < 0.95 else r.choice(pnames), [(O(2010, 1, 1), str(r.randint(1, 5)))]))
+            cds = []
+            if r.random() < 0.6:
+                nm = f"d{i}" if r.random() < 0.95 else r.choice(names)
+                cds.append(self.classdef(nm, [x for x in names if info[x][0] not in NOREF],
+                                         pnames + [q for q, _ in xp if q not in pnames], ents, dp=r.choice(["month", "year"])))
+            dpool.append((f"xd{i}", cds, xp))
+
         def lower_of(name):
             return [x for x in names if rank[x] < rank.get(name, 99) and info[x][0] not in NOREF]
 
         def mod(allow_par=True):
-            k = r.choices(["add", "upd", "rep", "neu", "ann", "par"], [2, 4, 2, 3, 3, 3 if allow_par else 0])[0]
+            k = r.choices(["add", "upd", "rep", "neu", "ann", "par", "ext"], [2, 4, 2, 3, 3, 3 if allow_par else 0, 1.3])[0]
+            if k == "ext":          # load_extension called directly on the system (or from a reform's apply())
+                return ("ext", r.choice(dpool))
             if k == "add":
                 n = r.choice(NEWNAMES) if r.random() < 0.92 else r.choice(names)
                 cd = self.classdef(n, lower_of(n), pnames, ents, dp=r.choice(["month", "year"]))
@@ -798,7 +823,7 @@ class Gen:
             inputs.append([n, dp, 2018, r.choice([1, 1, 3]), vals])
         requests = [[r.choice(names + NEWNAMES[:1]) if r.random() < 0.9 else r.choice(NEWNAMES), r.choice([2018, 2018, 2019]),
                      r.choice([1, 3, 3, 12])] for _ in range(r.randint(4, 8))]
-        for n in sorted({cd["name"] for _, cds, _ in xpool for cd in cds}):
+        for n in sorted({cd["name"] for _, cds, _ in xpool + dpool for cd in cds}):
             requests.insert(r.randrange(len(requests) + 1), [n, 2018, r.choice([1, 3])])
         return {"ents": ents, "params": params, "vars": vars_, "ops": ops, "queries": queries,
                 "fdefs": dict(self.fdefs), "sim": {"inputs": inputs, "requests": requests}}
@@ -818,6 +843,7 @@ def mods_of(op):
 def cds_of(op):
     """every class definition an operation carries"""
     out = [m[1] for m in mods_of(op) if m[0] in ("add", "upd", "rep")]
+    out += [cd for m in mods_of(op) if m[0] == "ext" for cd in m[1][1]]
     if op[0] == "T":
         out += [cd for _, cds, _ in op[3] for cd in cds]
     return out
@@ -924,6 +950,13 @@ def corpus():
                     [("town_allowance", 2018, 1), ("b", 2018, 1)], fdefs={**_FD, 7: ["+", ["p", "town"], ["k", 1]]}), "runner-reform-then-extension"),
         (_base_spec([("T", 0, [], [x_town]), ("T", 0, [("r1", [("par", [pu_r])]), ("r0", [("neu", "a")])], [x_town]), ("C", 0), ("T", 3, [("r0", [("neu", "a")])], [])],
                     [("town_allowance", 2018, 1), ("b", 2018, 1)], fdefs={**_FD, 7: ["+", ["p", "town"], ["k", 1]]}), "runner-extension-then-reform"),
+        # F-C14f: load_extension called directly on a parameter-neutral reform (it shares its baseline's tree) ...
+        (_base_spec([("R", 0, []), ("M", 1, ("ext", x_town))], [("town_allowance", 2018, 1), ("b", 2018, 1)],
+                    fdefs={**_FD, 7: ["+", ["p", "town"], ["k", 1]]}), "F-C14f"),
+        # ... on the second of two stacked neutral reforms after the first took its copy; and from apply()
+        (_base_spec([("R", 0, []), ("R", 1, []), ("M", 1, ("ext", x_town)), ("M", 2, ("ext", ("x9", [], [("city", [(O(2010, 1, 1), "7")])]))),
+                     ("R", 0, [("ext", x_town)]), ("C", 1), ("M", 5, ("ext", ("x9", [], [("city", [(O(2010, 1, 1), "7")])])))],
+                    [("town_allowance", 2018, 1), ("b", 2018, 1)], fdefs={**_FD, 7: ["+", ["p", "town"], ["k", 1]]}), "F-C14f"),
         # neutralised variables ignore inputs
         (_base_spec([("R", 0, [("neu", "a")])], [("a", 2018, 1), ("b", 2018, 1)], inputs=[("a", "month", 2018, 1, [4, 5, 6])]), "neutralized-input"),
     ]
